@@ -20,8 +20,8 @@ from . import common
 
 ID = 'C16'
 LEVEL = 'fault_enumeration'
-QUOTA = {'quick': 170, 'thorough': 2000}
-BUDGET = {'quick': 110, 'thorough': 1200}
+QUOTA = {'quick': 140, 'thorough': 2000}
+BUDGET = {'quick': 85, 'thorough': 1200}
 RULE = ('scenario = generated h5ad (integers stored as floats, non-integers, negatives, values at 255.5 / 65535.5 / '
         'int boundaries; dense/CSR/CSC; HDF5 chunk layouts; X or a layer; Ensembl ids with and without version, real '
         'mouse symbols, unknown names; rounding on/off); validated once cleanly and once per parent write event with an '
